@@ -951,7 +951,9 @@ ws_read_finish_msg(nni_ws *ws)
 	body = nni_msg_body(msg);
 	while ((frame = nni_list_first(&ws->rxq)) != NULL) {
 		nni_list_remove(&ws->rxq, frame);
-		memcpy(body, frame->buf, frame->len);
+		if (frame->len > 0) { // an empty frame has no buffer
+			memcpy(body, frame->buf, frame->len);
+		}
 		body += frame->len;
 		ws_frame_fini(frame);
 	}
